@@ -408,6 +408,38 @@ func c03HexHalfway(c *mc.Check, tailBits int) {
 	f.Done()
 }
 
+func c03MantExp(c *mc.Check, offsets int) {
+	f := c.Family("mantissa-x-exponent", fmt.Sprintf("decimal numbers M·10^e for every mantissa length 1…19, %d mantissas per length (windows of a fixed digit string, so mantissas of every length below, at and above 2^53 and 10^15…10^19) × every exponent −45…45, written as Me<e>, as d.ddd…e<e'> and (for small |e|) without an exponent: the exact-arithmetic fast paths (mantissa and power of ten both exact, the power split in two for e>22) and their limits; compared bit for bit with strconv; non-trivial = strconv accepts", offsets), c03Replay)
+	if c.Replaying() {
+		return
+	}
+	const digits = "31415926535897932384626433832795028841971693993751058209749445923078164062862089986280348253421170679"
+	var texts []string
+	for n := 1; n <= 19; n++ {
+		for off := 0; off < offsets; off++ {
+			m := strings.TrimLeft(digits[off*3:off*3+n], "0")
+			if m == "" {
+				continue
+			}
+			for e := -45; e <= 45; e++ {
+				texts = append(texts, fmt.Sprintf("%se%d", m, e))
+				if len(m) > 1 {
+					texts = append(texts, fmt.Sprintf("%s.%se%d", m[:1], m[1:], e+len(m)-1))
+				}
+				if e >= 0 && e <= 4 {
+					texts = append(texts, m+strings.Repeat("0", e))
+				}
+				if e < 0 && -e < len(m) {
+					texts = append(texts, m[:len(m)+e]+"."+m[len(m)+e:])
+				}
+			}
+		}
+	}
+	c03RunList(c, f, texts, []string{"value"})
+	f.Sample(c03Case{"value", "17331776148e36"})
+	f.Done()
+}
+
 func c03Integers(c *mc.Check) {
 	f := c.Family("integer-boundaries", "integers B+δ (δ∈−25..25) around 2^53, 2^63, 2^64, (MaxInt64−10)/10 and its ×10, 10^18, 10^19, 10^22, 10^23, each also ×10^k (k≤21) and with suffixes .0 .5 e0 and leading zeros / signs, in both fields; compared with strconv; non-trivial = strconv accepts", c03Replay)
 	if c.Replaying() {
@@ -510,6 +542,7 @@ func TestVerifC03(t *testing.T) {
 	c03Halfway(c, 1)
 	c03HexHalfway(c, mc.Pick(c, 8, 12))
 	c03Powers(c)
+	c03MantExp(c, mc.Pick(c, 12, 27))
 	c03Integers(c)
 	c03Special(c)
 	c03Shortest(c, mc.Pick(c, 64, 1024), mc.Pick(c, 20000, 200000))
